@@ -131,13 +131,16 @@ class Violation:
 class Walker:
     """Executes every edge of a Graph at least once (covering walk with restarts)."""
 
-    def __init__(self, graph, make_env, keys, *, seed=0, max_run=400, on_step=None, max_violations=400):
+    def __init__(self, graph, make_env, keys, *, seed=0, max_run=400, on_step=None, max_violations=400,
+                 on_run_end=None):
         self.g = graph
         self.make_env = make_env
         self.keys = [k for k in keys]
         self.rng = random.Random(seed)
         self.max_run = max_run
         self.on_step = on_step
+        self.on_run_end = on_run_end
+        self.extra = []  # violations (dicts) reported by on_run_end
         self.violations = []
         self.max_violations = max_violations
         self.steps = 0
@@ -186,6 +189,7 @@ class Walker:
             history = []
             n = 0
             plan = []
+            nxt = cur
             while n < self.max_run:
                 if not plan:
                     cand = [e for e in g.out[cur] if not e[2]]
@@ -205,6 +209,8 @@ class Walker:
                 if nxt != e[1]:
                     plan = []
                 cur = nxt
+            if self.on_run_end is not None and nxt is not None:
+                self.extra += self.on_run_end(env, [args_of(o) for o in history]) or []
             if len(history) > 1 and len(self.samples) < 3:
                 self.samples.append([args_of(o) for o in history[:12]])
             if self._path_to_unvisited(g.init) is None and self.remaining > 0:
